@@ -382,4 +382,12 @@ def rule_active(ctx: Ctx):
               "an instance view compares as the state it wraps", ieq.key, "return " + " | ".join(sorted(srcs)))
 
 
-RULES = [rule_access, rule_written_value, rule_mapping, rule_noshadow, rule_falsy, rule_active]
+def rule_start_value(ctx: Ctx):
+    """C10.access: the state the machine starts in is looked up under the start value exactly as given (state values may be
+    objects that carry a `.value` of their own, e.g. Enum members)."""
+    from . import c11
+
+    c11.rule_target(ctx, rule="C10.access")
+
+
+RULES = [rule_access, rule_written_value, rule_mapping, rule_noshadow, rule_falsy, rule_active, rule_start_value]
